@@ -654,6 +654,36 @@ def oracle(c):
                                    'observed': where(raw[i][1]) if i < len(raw) else None})
     if top is not res[id(t)] and top != res[id(t)]:
         return ('start-does-not-return-root-result', {'observed': repr(top)[:100]})
+    if d['kind'] != 'built':
+        return _recomposer_order(t, where)
+    return None
+
+
+def _recomposer_order(t, where):
+    """the library's own visitor that descends by itself (the LaTeX recomposer): its leaf callbacks (characters,
+    comments) are called once per leaf node and in document order - arguments before body"""
+    from pylatexenc.latexnodes import LatexNodesLatexRecomposer
+    log = []
+
+    class R(LatexNodesLatexRecomposer):
+        def recompose_chars(self, chars, n):
+            log.append(n)
+            return super(R, self).recompose_chars(chars, n)
+
+        def recompose_comment(self, comment, comment_post_space, n):
+            log.append(n)
+            return super(R, self).recompose_comment(comment, comment_post_space, n)
+    try:
+        out = R().latex_recompose(t)
+    except Exception as e:
+        return ('recomposer-raised', {'exception': type(e).__name__, 'message': str(e)[:200]})
+    if not isinstance(out, str):
+        return ('recomposer-returned-non-string', {'type': type(out).__name__})
+    leaves = [n for n in treedump.iter_nodes(t) if treedump.kind(n) in ('C', '#')]       # pre-order = document order
+    if len(log) != len(leaves) or any(a is not b for a, b in zip(log, leaves)):
+        i = next((j for j in range(min(len(log), len(leaves))) if log[j] is not leaves[j]), min(len(log), len(leaves)))
+        return ('recomposer-leaves-not-once-in-document-order', {
+            'at': i, 'observed': where(log[i]) if i < len(log) else None, 'expected': where(leaves[i]) if i < len(leaves) else None})
     return None
 
 
